@@ -34,7 +34,7 @@ ASSUMPTIONS = [
     "documented errors = the exception classes of pyoak.legacy.error; an operation that raises anything else gives no verdict (counted)",
     "operations expected to be rejected that are accepted give no verdict (counted) and join the history",
 ]
-MUST_SEE = ["collision_in_sequence_declared_before_single_fields", "receiver_with_node_or_scalar_field", "collision_two_levels_below_new", "nodes_above_failing_descendant_checked", "transform_of_a_detached_tree_rejected", "replace_key_init_false_in_subclass", "same_id_pair_as_children", "transform_result_is_an_attached_root", "detached_receiver_children_reused", "falsy_replacement_with_parent", "visitor_reused_after_rejection", "wrapper_reusing_own_child", "replace_with_own_child", "adopted_children_checked", "runtime_only_child_field_transform", "rule_replaces_children_of_its_copy", "receiver_below_falsy_parent", 
+MUST_SEE = ["attach_of_stale_detached_node_rejected", "collision_in_sequence_declared_before_single_fields", "receiver_with_node_or_scalar_field", "collision_two_levels_below_new", "nodes_above_failing_descendant_checked", "transform_of_a_detached_tree_rejected", "replace_key_init_false_in_subclass", "same_id_pair_as_children", "transform_result_is_an_attached_root", "detached_receiver_children_reused", "falsy_replacement_with_parent", "visitor_reused_after_rejection", "wrapper_reusing_own_child", "replace_with_own_child", "adopted_children_checked", "runtime_only_child_field_transform", "rule_replaces_children_of_its_copy", "receiver_below_falsy_parent", 
     "rejected_ASTNodeDuplicateChildrenError", "rejected_ASTNodeParentCollisionError", "rejected_ASTNodeIDCollisionError", "rejected_ASTNodeRegistryCollisionError",
     "rejected_ASTNodeReplaceError", "rejected_ASTNodeReplaceWithError", "rejected_ASTTransformError", "failing_element_not_first", "frames_compared", "nested_failing_element", "two_collided_children",
 ]
@@ -109,8 +109,8 @@ def run_shard(ctx):
             kind = rng.choices(
                 ["dup_seq", "dup_two_fields", "parent_collision", "parent_collision_nested", "id_collision", "attach_collision", "attach_collision_nested",
                  "replace_keys", "replace_dup", "replace_parent_collision", "rw_has_parent", "rw_wrong_class", "rw_none_required", "rw_attach_fails",
-                 "transform_raises", "transform_removes_required", "transformer_raises", "rw_clone_of_attached", "parent_collision_two", "transform_runtime_children", "rw_own_child", "rw_wrapper_reuses_child", "transform_reused_visitor", "rw_falsy_with_parent", "transform_result_refused", "replace_dup_detached_receiver", "replace_same_id_pair", "transform_on_detached_tree", "rw_collision_two_levels_down", "replace_collision_in_sequence_declared_first"],
-                [3, 3, 1, 1, 3, 3, 1, 3, 1, 1, 3, 3, 3, 1, 3, 3, 3, 2, 2, 2 if f"{P}Seq" in U.cls else 0, 2, 2, 2, 2, 2, 2, 2, 2, 2, 2],
+                 "transform_raises", "transform_removes_required", "transformer_raises", "rw_clone_of_attached", "parent_collision_two", "transform_runtime_children", "rw_own_child", "rw_wrapper_reuses_child", "transform_reused_visitor", "rw_falsy_with_parent", "transform_result_refused", "replace_dup_detached_receiver", "replace_same_id_pair", "transform_on_detached_tree", "rw_collision_two_levels_down", "replace_collision_in_sequence_declared_first", "attach_of_stale_detached_rejected_at_child"],
+                [3, 3, 1, 1, 3, 3, 1, 3, 1, 1, 3, 3, 3, 1, 3, 3, 3, 2, 2, 2 if f"{P}Seq" in U.cls else 0, 2, 2, 2, 2, 2, 2, 2, 2, 2, 2, 2],
             )[0]
             where = rng.choice(["first", "middle", "last"])
             if kind == "dup_seq":
@@ -325,6 +325,22 @@ def run_shard(ctx):
                 R.last_replace_extra = {"omega": innocent}
                 ctx.count("collision_in_sequence_declared_before_single_fields")
                 return ("replace", where, recv, list(seq) + [innocent], lambda: recv.replace(items=tuple(seq), omega=innocent))
+            if kind == "attach_of_stale_detached_rejected_at_child":
+                # a node taken out alone (its children stay attached roots), a grandchild changed meanwhile (the cached content id
+                # of the detached node is out of date), one of its children adopted by another parent: attach() is refused at that
+                # child - the detached node is what it was, its out-of-date content id included
+                R.counter += 1
+                lf = U.cls[f"{P}Leaf"](v=R.counter + 98000, origin=NO)
+                mid = U.cls[f"{P}Un"](child=lf, origin=NO)
+                taken = leaf()
+                top_ = U.cls[f"{P}List"](items=(mid, taken) if where != "first" else (taken, mid), origin=NO)
+                F.add(top_)
+                top_.detach_self()
+                F.add(lf.replace(v=R.counter + 99000))
+                other = U.cls[f"{P}Un"](child=taken, origin=NO)
+                F.add(other)
+                ctx.count("attach_of_stale_detached_node_rejected")
+                return ("attach", where, top_, [], lambda: top_.attach())
             if kind == "replace_same_id_pair":
                 # a node is detached while a reference to it is kept, the same node is created again (same id); later both
                 # objects are handed to replace() of an attached node: two children with one id, refused before anything moves
